@@ -1,6 +1,7 @@
 package dials
 
 import (
+	"reflect"
 	"context"
 	"errors"
 	"strconv"
@@ -199,4 +200,50 @@ func HarnessC09EnableCancel() {
 	bad := ws.wa.BlockingReportNewValue(ctx, mkValue(ws.t, hval{setA: true, a: 3, setBad: true, bad: true}))
 	zzverif.Assert(bad != nil && d.View().A == 2, "C09 after EnableVerification succeeded an invalid re-stack was installed")
 	zzverif.Reached("c09-enable-cancel-end")
+}
+
+// HarnessC09NoVerify: a config type without a Verify method under delayed verification with the
+// suppress option: EnableVerification still ends the delay (there is nothing to verify, so it
+// succeeds), and from then on the global callbacks are delivered.
+func HarnessC09NoVerify() {
+	lim := 5
+	def := hcfgL{Limit: &lim}
+	src := &c03ssrc{mk: func(t *Type) reflect.Value { return reflect.New(t.Type()).Elem() }}
+	ctx, cancel := context.WithCancel(context.Background())
+	defer cancel()
+	nErr, nNew := 0, 0
+	p := Params[hcfgL]{
+		OnNewConfig:              func(context.Context, *hcfgL, *hcfgL) { nNew++ },
+		OnWatchedError:           func(context.Context, error, *hcfgL, *hcfgL) { nErr++ },
+		DelayInitialVerification: true,
+		CallGlobalCallbacksAfterVerificationEnabled: zzverif.Choose("suppress", 2) == 1,
+	}
+	suppress := p.CallGlobalCallbacksAfterVerificationEnabled
+	d, err := p.Config(ctx, &def, src)
+	if err != nil {
+		zzverif.Fail("C04 Config failed on a valid stack")
+		return
+	}
+	report := func(a int64) {
+		v := reflect.New(src.t.Type()).Elem()
+		v.FieldByName("A").Set(reflect.ValueOf(&a))
+		e := src.wa.BlockingReportNewValue(ctx, v)
+		zzverif.Assert(e == nil && d.View().A == a, "C09 an update was not installed")
+	}
+	report(1)
+	zzverif.Quiesce()
+	wantNew := 1
+	if suppress {
+		wantNew = 0
+	}
+	zzverif.Assert(nNew == wantNew, "C09 OnNewConfig delivery before EnableVerification does not match the suppression rule")
+	cur, cser := d.ViewVersion()
+	cfg, ser, eerr := d.EnableVerification(ctx)
+	zzverif.Assert(eerr == nil && cfg == cur && ser.s == cser.s, "C09 EnableVerification on a config type without Verify did not succeed with the installed config")
+	report(2)
+	zzverif.Assert(src.wa.ReportError(ctx, errSource) == nil, "C08 ReportError failed with a live context")
+	zzverif.Quiesce()
+	zzverif.Assert(nNew == wantNew+1, "C09 OnNewConfig is still withheld after EnableVerification succeeded (config type without Verify)")
+	zzverif.Assert(nErr == 1, "C09 OnWatchedError is still withheld after EnableVerification succeeded (config type without Verify)")
+	zzverif.Reached("c09-noverify-end")
 }
